@@ -132,7 +132,7 @@ def resources(ctx, funcs):
         fa = ctx.fa(fi.qualname)
         for e in calls(fa, 'h5py.File'):
             n += 1
-            is_with = any(w == e.term for w in e.withs) or any(x.kind == 'with' and x.cm == e.term and x.line == e.line for x in fa.events)
+            is_with = any(w == e.term for w in e.withs) or any(x.kind == 'with' and x.cm == e.term and x.idx == e.idx + 1 for x in fa.events)
             ok = is_with or fi.qualname in allowed
             ctx.check(ok, R, f'{fi.qualname.replace("cooler.", "")}@{e.line}', ctx.where(fa, e), found='with-item' if is_with else T.show(e.term)[:80],
                       expected='h5py.File(...) is opened as a with-item', reason=allowed.get(fi.qualname, 'a handle that is not closed on every exit keeps the file locked / unflushed'),
